@@ -16,6 +16,10 @@ from .lib import Lib
 from . import solve
 
 
+class BuildBudgetExceeded(BaseException):
+    pass
+
+
 class Goal:
     def __init__(self, ob, axioms, replay=None, expect='unsat', clause=None):
         self.ob = ob
@@ -113,9 +117,35 @@ class Suite:
         return n
 
     def guarded(self, where, fn):
-        """Run a contract-building step; leaving the subset makes the property UNDECIDED, never a violation."""
+        """Run a contract-building step; leaving the subset makes the property UNDECIDED, never a violation.  The step runs under a wall-clock
+        budget (PYVC_BUILD_BUDGET_S, default 300 s): symbolic execution of code the contract was not written for can blow up (a filter over a
+        117-row table explored path by path); when the budget is spent the step is UNDECIDED and the check goes on."""
+        import signal
+        budget = int(os.environ.get('PYVC_BUILD_BUDGET_S', '300'))
+        nested = getattr(self, '_in_guarded', False)
+
+        def on_alarm(signum, frame):
+            raise BuildBudgetExceeded("symbolic execution did not finish within %d s" % budget)
+        if not nested and budget > 0:
+            old_handler = signal.signal(signal.SIGALRM, on_alarm)
+            signal.alarm(budget)
+        self._in_guarded = True
+        try:
+            return self._guarded(where, fn)
+        except BuildBudgetExceeded as e:
+            self.undecided.append((where, "out of subset: %s" % (e,)))
+            return None
+        finally:
+            self._in_guarded = nested
+            if not nested and budget > 0:
+                signal.alarm(0)
+                signal.signal(signal.SIGALRM, old_handler)
+
+    def _guarded(self, where, fn):
         try:
             return fn()
+        except BuildBudgetExceeded:
+            raise
         except OutOfSubset as e:
             self.undecided.append((where, "out of subset: %s" % (e,)))
         except RecursionError as e:
